@@ -259,11 +259,16 @@ pub fn build(p: Pipe) -> Rig {
         Pipe::ThrottleTailTick => keep!(src.throttle(|_v: &Val| world::units(1), rxrust::ops::throttle::ThrottleEdge::tailing(), sd).actual_subscribe(probe)),
         _ => keep!(src.throttle(|_v: &Val| world::units(1), rxrust::ops::throttle::ThrottleEdge::all(), sd).actual_subscribe(probe)),
       }
-      let tick: Rc<dyn Fn()> = Rc::new(|| {
+      // the worker's steps are separate operations: the clock moves, or one ready task is polled. (A whole
+      // "advance and poll everything" step is not atomic in any real pool: another thread's event may fall between
+      // two task polls, so no serial order of whole steps would reproduce a perfectly legitimate outcome.)
+      let adv: Rc<dyn Fn()> = Rc::new(|| {
         world::advance(1);
-        world::run_fifo_bounded(8);
       });
-      Rig { feed: feed_tags(vec![0]), ninputs: 1, unsub, subscribe: None, probes: vec![probe], drain: sched_drain, peek: None, extra: vec![("worker: clock +1, poll ready tasks", tick)] }
+      let poll1: Rc<dyn Fn()> = Rc::new(|| {
+        world::run_fifo_bounded(1);
+      });
+      Rig { feed: feed_tags(vec![0]), ninputs: 1, unsub, subscribe: None, probes: vec![probe], drain: sched_drain, peek: None, extra: vec![("worker: clock +1", adv), ("worker: poll one ready task", poll1)] }
     }
     Pipe::ThrottleTail => {
       keep!(cat::hot_tagged_t(0).throttle(|_v: &Val| world::units(1), rxrust::ops::throttle::ThrottleEdge::tailing(), world::any_sched()).actual_subscribe(probe));
